@@ -38,7 +38,24 @@ func newPickEnv(c *Ctx) *pickEnv {
 		}
 		switch parts[1] {
 		case "holding":
-			fmt.Fprintf(w, "W%s", parts[0])
+			// the transfer takes several shapes: announced length, chunked (no Content-Length), chunked in two pieces
+			n := 0
+			fmt.Sscan(parts[0], &n)
+			switch n % 3 {
+			case 1:
+				if fl, ok := w.(http.Flusher); ok {
+					fl.Flush()
+				}
+				fmt.Fprintf(w, "W%s", parts[0])
+			case 2:
+				fmt.Fprint(w, "W")
+				if fl, ok := w.(http.Flusher); ok {
+					fl.Flush()
+				}
+				fmt.Fprint(w, parts[0])
+			default:
+				fmt.Fprintf(w, "W%s", parts[0])
+			}
 		case "holdingq": // holds the ware for requests carrying the address's query string only
 			if r.URL.Query().Get("token") == "s3cr3t" {
 				fmt.Fprintf(w, "W%s", parts[0])
